@@ -138,7 +138,7 @@ def run(ctx, report):
         for b, t in f.calls():
             if t.callee and t.callee.name == "enr_to_public" and (t.callee.trait or "").endswith("EnrKey"):
                 tgt = an.operand_target(t.args[0])
-                if tgt is not None and tgt[0] == m.content_local and tgt[1] == [] and all(g.dominates(b.idx, o[0]) for o in oks) and b.idx not in m.loop_body:
+                if tgt is not None and tgt[2] is False and m.holds_content(tgt[0], b.idx, len(b.stmts)) and tgt[1] == [] and all(g.dominates(b.idx, o[0]) for o in oks) and b.idx not in m.loop_body:
                     # and its failure exits
                     r = an.call_expr(t, b.idx)
                     for o in oks:
@@ -224,7 +224,11 @@ def is_payload(m, e):
     if d is None:
         return False
     dexpr = an.rvalue_expr(d[2].rv, d[0], d[1])
-    return same_value(cur, dexpr)
+    if same_value(cur, dexpr):
+        return True
+    # a later cursor of the chain (the slice handed on by value) denotes the same payload
+    from kernel import unmut
+    return len(getattr(m, "cursor_chain", [])) > 1 and same_value(unmut(cur), unmut(dexpr))
 
 
 def leaf_class(m, cl):
